@@ -12,6 +12,7 @@ package main
 
 import (
 	"go/token"
+	"io"
 	"reflect"
 	"unsafe"
 
@@ -54,6 +55,12 @@ func addReferrer(v ssa.Value, in ssa.Instruction) {
 
 //go:linkname ssaNumberRegisters golang.org/x/tools/go/ssa.numberRegisters
 func ssaNumberRegisters(f *ssa.Function)
+
+// go/ssa's own well-formedness checker (referrers, phi edge counts, dominance of operands, block structure): run
+// on every function these normalisations touched, so that a mistake in them cannot silently distort a verdict.
+//
+//go:linkname ssaSanityCheck golang.org/x/tools/go/ssa.sanityCheck
+func ssaSanityCheck(fn *ssa.Function, reporter io.Writer) bool
 
 // duplicable: a value computation without effects that may sit between the phis and the Return of a join block
 // (boxing the result into an interface, a conversion, an arithmetic or boolean operator).
@@ -218,4 +225,130 @@ func splitReturns(fn *ssa.Function) int {
 		ssaNumberRegisters(fn)
 	}
 	return created
+}
+
+// threadConstBranches: jump threading over a block that only joins a boolean and branches on it —
+// `found = true … found = false … if found {` (also what the source-level inliner leaves for `if helper(…) {`).
+// A predecessor that supplies a constant goes straight to the branch target that constant selects. The join
+// block holds nothing but the phi and the If, and the phi has no other user, so nothing is skipped or repeated.
+func threadConstBranches(fn *ssa.Function) int {
+	threaded := 0
+	for round := 0; round < 8; round++ {
+		changed := false
+		for _, b := range fn.Blocks {
+			if b == nil || len(b.Instrs) != 2 || len(b.Preds) < 2 || len(b.Succs) != 2 || b.Succs[0] == b.Succs[1] {
+				continue
+			}
+			phi, ok := b.Instrs[0].(*ssa.Phi)
+			if !ok {
+				continue
+			}
+			iff, ok := b.Instrs[1].(*ssa.If)
+			if !ok || iff.Cond != ssa.Value(phi) || len(*phi.Referrers()) != 1 {
+				continue
+			}
+			if b.Succs[0] == b || b.Succs[1] == b {
+				continue
+			}
+			for i := len(b.Preds) - 1; i >= 0; i-- {
+				c, isConst := phi.Edges[i].(*ssa.Const)
+				if !isConst || c.Value == nil {
+					continue
+				}
+				p := b.Preds[i]
+				if p == b {
+					continue
+				}
+				// p must reach b over exactly one edge
+				edges := 0
+				for _, s := range p.Succs {
+					if s == b {
+						edges++
+					}
+				}
+				if edges != 1 {
+					continue
+				}
+				val, okb := constBool(c)
+				if !okb {
+					continue
+				}
+				target := b.Succs[1]
+				if val {
+					target = b.Succs[0]
+				}
+				// the values the target's phis take when entered from b
+				bIdx := -1
+				for k, tp := range target.Preds {
+					if tp == b {
+						bIdx = k
+					}
+				}
+				already := false
+				for _, tp := range target.Preds {
+					if tp == p {
+						already = true
+					}
+				}
+				if bIdx < 0 || already {
+					continue
+				}
+				for k, s := range p.Succs {
+					if s == b {
+						p.Succs[k] = target
+					}
+				}
+				target.Preds = append(target.Preds, p)
+				for _, in := range target.Instrs {
+					tphi, isPhi := in.(*ssa.Phi)
+					if !isPhi {
+						break
+					}
+					v := tphi.Edges[bIdx]
+					tphi.Edges = append(tphi.Edges, v)
+					addReferrer(v, tphi)
+				}
+				b.Preds = append(b.Preds[:i:i], b.Preds[i+1:]...)
+				phi.Edges = append(phi.Edges[:i:i], phi.Edges[i+1:]...)
+				threaded++
+				changed = true
+			}
+			if len(b.Preds) == 0 {
+				// unreachable now: detach from its successors
+				for _, s := range b.Succs {
+					for k := len(s.Preds) - 1; k >= 0; k-- {
+						if s.Preds[k] != b {
+							continue
+						}
+						s.Preds = append(s.Preds[:k:k], s.Preds[k+1:]...)
+						for _, in := range s.Instrs {
+							sphi, isPhi := in.(*ssa.Phi)
+							if !isPhi {
+								break
+							}
+							removeOneReferrer(sphi.Edges[k], sphi)
+							sphi.Edges = append(sphi.Edges[:k:k], sphi.Edges[k+1:]...)
+						}
+					}
+				}
+				removeOneReferrer(phi, iff)
+				fn.Blocks[b.Index] = nil
+			}
+		}
+		if !changed {
+			break
+		}
+		j := 0
+		for _, b := range fn.Blocks {
+			if b != nil {
+				b.Index = j
+				fn.Blocks[j] = b
+				j++
+			}
+		}
+		fn.Blocks = fn.Blocks[:j]
+		ssaBuildDomTree(fn)
+		ssaNumberRegisters(fn)
+	}
+	return threaded
 }
